@@ -85,3 +85,34 @@ Proof. split; [apply wf_refsb_spec; vm_compute; reflexivity|].
   split; [apply (rankedb_acyclic G3 N.to_nat); vm_compute; reflexivity|].
   split; [vm_compute; reflexivity|]. split; [apply valid_cmdsb_spec; vm_compute; reflexivity|].
   apply valid_stepb_spec. vm_compute; reflexivity. Qed.
+
+(* ---------- composition with C01 / C02: a whole upgrade / downgrade COMMAND ----------
+   The plan computed by the planner model is always a valid step sequence, hence from any state in
+   which the rows are the heads of a closed applied set, planning with `upgrade_plan` (resp.
+   `downgrade_plan`) from the rows and book-keeping every step never errs, touches exactly one row per
+   statement, and leaves rows = maximal applied revisions after EVERY step. *)
+From AV Require Import Model.Plan Spec.C01 Spec.C02 Proofs.PlanProof Proofs.ComposeProof.
+Theorem C03_upgrade_command : forall G ord T A s plan,
+  wf_refs G -> ~ cyclic (all_down G) -> ndeps_ok G -> Spec.C03.ndeps_okb G = true ->
+  (forall l, Permutation (ord l) l) -> incl T (ids G) ->
+  Inv G A s -> upgrade_plan G T (rows s) = POk plan ->
+  exists os s', run_steps G ord (up_steps plan) s = (os, Some s') /\ steps_hold G A (up_steps plan) os /\
+                Inv G (ghost_steps (up_steps plan) A) s' /\ last_rows os (rows s) = rows s'.
+Proof. exact upgrade_command. Qed.
+Print Assumptions C03_upgrade_command.
+
+Theorem C03_downgrade_command : forall G ord target branch A s plan,
+  wf_refs G -> ~ cyclic (all_down G) -> ndeps_ok G -> Spec.C03.ndeps_okb G = true ->
+  (forall l, Permutation (ord l) l) ->
+  Inv G A s -> downgrade_plan G target branch (rows s) = POk plan ->
+  exists os s', run_steps G ord (down_steps plan) s = (os, Some s') /\ steps_hold G A (down_steps plan) os /\
+                Inv G (ghost_steps (down_steps plan) A) s' /\ last_rows os (rows s) = rows s'.
+Proof. exact downgrade_command. Qed.
+Print Assumptions C03_downgrade_command.
+
+(* the planners' output satisfies C03's step-validity hypothesis *)
+Theorem C03_plans_are_valid : forall G T Cur A plan,
+  wf_refs G -> ~ cyclic (all_down G) -> ndeps_ok G -> incl T (ids G) ->
+  (forall z, In z A <-> AncOf G Cur z) -> upgrade_plan G T Cur = POk plan -> valid_steps G A (up_steps plan).
+Proof. intros. eapply upgrade_plan_valid; eauto. Qed.
+Print Assumptions C03_plans_are_valid.
